@@ -88,7 +88,7 @@ def gen_small(rng, kinds):
 
 
 def run(tier):
-    ctx = Ctx("C02", tier, level="exploration")
+    ctx = Ctx("C02", tier)
     rng = ctx.rng
     ctx.gen_params()
     for pf in PROPS:
